@@ -1,0 +1,59 @@
+//go:build verif
+
+package derive
+
+import (
+	"go/ast"
+	"go/token"
+	"go/types"
+	"sort"
+
+	"golang.org/x/tools/go/loader"
+)
+
+// This file is compiled only with the build tag "verif". It lets the verification harness under /verif
+// run the ordering of the packages of one invocation (sort by path, then importedFirst) on an abstract
+// import graph. It adds no behaviour.
+
+// VerifPackage describes one loaded package: its path, the directory of its files, the paths of the
+// packages it imports, and whether it was named on the command line.
+type VerifPackage struct {
+	Path    string
+	Dir     string
+	Imports []string
+	Named   bool
+}
+
+// VerifGenerationOrder returns the paths of the named packages in the order in which Generate processes them.
+func VerifGenerationOrder(pkgs []VerifPackage) []string {
+	fset := token.NewFileSet()
+	program := &loader.Program{Fset: fset, AllPackages: make(map[*types.Package]*loader.PackageInfo)}
+	byPath := make(map[string]*types.Package, len(pkgs))
+	for _, p := range pkgs {
+		byPath[p.Path] = types.NewPackage(p.Path, "p")
+	}
+	var named []*loader.PackageInfo
+	for _, p := range pkgs {
+		pkg := byPath[p.Path]
+		imports := make([]*types.Package, 0, len(p.Imports))
+		for _, i := range p.Imports {
+			if imported, ok := byPath[i]; ok {
+				imports = append(imports, imported)
+			}
+		}
+		pkg.SetImports(imports)
+		file := fset.AddFile(p.Dir+"/f.go", -1, 10)
+		info := &loader.PackageInfo{Pkg: pkg, Files: []*ast.File{{Package: file.Pos(0)}}}
+		program.AllPackages[pkg] = info
+		if p.Named {
+			named = append(named, info)
+		}
+	}
+	sort.Slice(named, func(i, j int) bool { return named[i].Pkg.Path() < named[j].Pkg.Path() })
+	ordered := importedFirst(program, named)
+	paths := make([]string, len(ordered))
+	for i, info := range ordered {
+		paths[i] = info.Pkg.Path()
+	}
+	return paths
+}
